@@ -29,7 +29,6 @@ RoundTripOK(cs) ==
     IN  /\ cs.saveRes = "ok" /\ cs.loadRes = "ok"
         /\ d.ok /\ d.reg = r                       \* save wrote the registry in the native layout
         /\ Reg(cs.loaded) = r                      \* load reproduces every node and child
-        /\ LoadAccepts(r)
         /\ cs.hasLegacy =>
               LET dl == DenoteLegacy(cs.legacy) IN
               /\ dl.ok /\ dl.reg = r
@@ -37,8 +36,14 @@ RoundTripOK(cs) ==
 
 LoadOK(cs) ==
     /\ cs.res \in {"ok", "readerror"}
-    /\ (cs.class = "json" /\ Denote(cs.file).ok) => (cs.res = "ok" /\ Reg(cs.loaded) = Denote(cs.file).reg)
-    /\ (cs.class = "json" /\ DenoteLegacy(cs.file).ok) => (cs.res = "ok" /\ Reg(cs.loaded) = DenoteLegacy(cs.file).reg)
+    \* a file of the exact layout loads to the registry it denotes; if it holds a value outside the usual
+    \* range (battery level beyond 0-100) it may also be refused with the read error
+    /\ (cs.class = "json" /\ Denote(cs.file).ok) =>
+          IF LoadAccepts(Denote(cs.file).reg) THEN (cs.res = "ok" /\ Reg(cs.loaded) = Denote(cs.file).reg)
+          ELSE (cs.res = "ok" => Reg(cs.loaded) = Denote(cs.file).reg)
+    /\ (cs.class = "json" /\ DenoteLegacy(cs.file).ok) =>
+          IF LoadAccepts(DenoteLegacy(cs.file).reg) THEN (cs.res = "ok" /\ Reg(cs.loaded) = DenoteLegacy(cs.file).reg)
+          ELSE (cs.res = "ok" => Reg(cs.loaded) = DenoteLegacy(cs.file).reg)
     /\ (cs.class = "empty") => (cs.res = "ok" /\ Reg(cs.loaded) = Reg(cs.before))
     \* a missing file is created holding the current registry
     /\ (cs.class = "missing") => (cs.res = "ok" /\ Reg(cs.loaded) = Reg(cs.before)
